@@ -50,9 +50,10 @@ def check(chk, repo, tier):
     n_states = 0
     bad = {}
     import itertools as _it  # noqa: PLC0415
-    for depth in (1, 2, 3):
-        for lens in _it.product(range(0, 4), repeat=depth):
-            if depth == 3 and max(lens) > 2:
+    deep = tier == "thorough"
+    for depth in ((1, 2, 3, 4) if deep else (1, 2, 3)):
+        for lens in _it.product(range(0, 5 if deep else 4), repeat=depth):
+            if depth >= 3 and max(lens) > (3 if deep and depth == 3 else 2):
                 continue
             curs_ranges = [range(0, 2 * ln + 2) if ln else range(0, 2)
                            for ln in lens]
